@@ -126,8 +126,8 @@ def gen_targets(cs, quick):
         if quick:
             for pos in range(3):
                 for full_ans in single:
-                    for o1 in single_red[:6]:
-                        for o2 in single_red[:6]:
+                    for o1 in single_red[:4]:
+                        for o2 in single_red[:4]:
                             al = [o1, o2]
                             al.insert(pos, full_ans)
                             al = [at(x, i + 1) for i, x in enumerate(al)]
@@ -167,11 +167,11 @@ def gen_simple_names(cs, quick):
             cs.add('%s g:*' % act, pre + [a1], 'names')
             for a2 in full:
                 cs.add('%s a b' % act, pre + [a1, a2], 'names')
-        pool = redl[:6] if quick else full
+        pool = redl[:4] if quick else full
         for pos in range(3):
             for fa in full:
                 for o1 in pool:
-                    for o2 in (redl[:4] if quick else pool):
+                    for o2 in (redl[:3] if quick else pool):
                         al = [o1, o2]
                         al.insert(pos, fa)
                         cs.add('%s a b c' % act, pre + al, 'names')
@@ -913,7 +913,7 @@ def build_cases(chk):
     gen_more_forms(cs, quick)
     gen_server_states(cs, quick)
     n_exh = len(cs.cases)
-    gen_random(cs, chk, 3000 if quick else 60000)
+    gen_random(cs, chk, 2500 if quick else 60000)
     return cs.cases, n_exh
 
 
@@ -1042,7 +1042,7 @@ def _run(chk, wd, proved, only):
                    'then %d random command lines against a typed random responder (valid and hostile streams). distinct = distinct '
                    '(action, kinds of printed lines, exit status, number of RPC calls) with at least one printed line or a non-zero '
                    'status' % (n_exh, len(UNKNOWN_CODES),
-                               'one position full x 5 representative codes elsewhere' if chk.tier == 'quick' else 'full cube',
+                               'one position full x 3 representative codes elsewhere' if chk.tier == 'quick' else 'full cube',
                                len(INFO_SETS), len(terms) - n_exh if only is None else 0))
     cov['samples'] = [{k: m[k] for k in ('line', 'script', 'printed', 'exitstatus')} for m in metas[:1] + metas[2000:2002] + metas[-2:]]
     cov['monitor_cases'] = n_mon
